@@ -134,6 +134,13 @@ def run(ctx, rep):
                 rep.check(s3 == lw, "R11.2", raw + ":store-subrange", "RawU24 store must take bytes [1..4] (BE) / [0..3] (LE) of the 4-byte value; found %r" % _fmt(sub(sr)),
                           at=store.span, fn=store.path)
 
+    try:
+        layout = check_subbyte_layout(prog, rep, impls)
+    except Exception as e:
+        import traceback; traceback.print_exc()
+        rep.fail('R11.8', 'layout-engine', 'layout analysis crashed: %r' % (e,), status='undecided')
+        layout = {}
+    layout_ok = bool(layout) and all(layout.values())
     # ---- R11.5-lite: documented sub-byte bit position (bit_position) -------------------------
     try:
         bp = prog.fn_by_path("embedded_graphics_core::pixelcolor::raw::load_store::bit_position")
@@ -175,7 +182,12 @@ def run(ctx, rep):
                 good = len(cs) == 1 and ty_str(cs[0]["f"]["args"][0]).endswith(raw) and ty_str(cs[0]["f"]["args"][1]) == order_param(impl)
                 rep.check(good, "R11.5", "%s:%s-uses-bit_position" % (raw, nm), "sub-byte %s must derive its position from bit_position::<Self, O>(index)" % nm, at=f.span, fn=f.path)
     except Exception as e:
-        rep.fail("R11.5", "bit_position", "cannot analyse bit_position: %r" % (e,), status="undecided")
+        if layout_ok and "matches 0 functions" in repr(e):
+            # the helper is gone (renamed / split / inlined): the documented positions are decided by the layout form of
+            # R11.8 on load and store themselves
+            rep.ok("R11.5", "bit_position", detail="no bit_position helper; the documented bit positions are decided by R11.8 (layout form)")
+        else:
+            rep.fail("R11.5", "bit_position", "cannot analyse bit_position: %r" % (e,), status="undecided")
 
     try:
         check_slots(prog, rep, impls)
@@ -189,7 +201,7 @@ def run(ctx, rep):
         import traceback; traceback.print_exc()
         rep.fail('R11.9', 'engine', 'front end analysis crashed: %r' % (e,), status='undecided')
     try:
-        check_subbyte_values(prog, rep, impls)
+        check_subbyte_values(prog, rep, impls, layout)
     except Exception as e:
         import traceback; traceback.print_exc()
         rep.fail('R11.8', 'engine', 'bit-level analysis crashed: %r' % (e,), status='undecided')
@@ -694,7 +706,7 @@ def check_slots(prog, rep, impls):
                 rep.check(not writes_bad, "R11.7", raw + ":store-writes", "store may write only through the selected slot: " + "; ".join(sorted(set(writes_bad))[:3]), status="undecided" if all("unknown" in w for w in writes_bad) else "refuted", at=f.span, fn=f.path)
 
 
-def check_subbyte_values(prog, rep, impls):
+def check_subbyte_values(prog, rep, impls, layout=None):
     """R11.8 bit-level round trip of the sub-byte raw types, in the bit-provenance domain (D2) on the value trees of the
     path summaries: for every shift s that bit_position can select (0, bpp, .., 8 - bpp; which pixel gets which shift
     is R11.5's table) the byte written by `store` carries the value's bits at [s, s + bpp) and the old byte's bits
@@ -732,6 +744,8 @@ def check_subbyte_values(prog, rep, impls):
             continue
         some = [sm for sm in ls if variant_of(sm.ret) and variant_of(sm.ret)[1] == "Some"]
         okp = [sm for sm in ss if variant_of(sm.ret) and variant_of(sm.ret)[1] == "Ok"]
+        if (len(some) != 1 or len(okp) != 1) and layout and layout.get(raw):
+            continue    # the position arithmetic is spelled out in load / store (one path per data order): decided by the layout form
         if len(some) != 1 or len(okp) != 1:
             rep.fail("R11.8", raw, "expected one accepting path each in load and store (found %d / %d)" % (len(some), len(okp)), status="undecided", at=load.span, fn=load.path)
             continue
@@ -826,3 +840,127 @@ def check_front_end(prog, rep):
             rep.check(bad is None, "R11.9", key, "RawData::%s must return what LoadStore::%s(%s) returns: %s" % (nm, nm, ", ".join(params), bad), at=f.span, fn=f.path,
                       status="refuted" if bad and "without consulting" in bad and "is None" in bad else "undecided" if bad else None)
     rep.floor("R11.9", "RawData front ends", n, 14)
+
+
+def check_subbyte_layout(prog, rep, impls):
+    """R11.8 (layout form) — independent of how the position arithmetic is spelled or which helpers carry it: load and
+    store of the sub-byte types are summarised with every crate-local helper inlined; for both data orders (the paths
+    are selected by their IS_ALTERNATE_ORDER facts) and for every pixel index of two consecutive bytes the index is
+    substituted, the position arithmetic is folded to constants and the value trees are evaluated in the bit-provenance
+    domain: the accessed byte is index / (8 / bpp), `load` returns exactly the documented bits of that byte
+    (MSB-first pixels in the standard order, LSB-first in the alternate order), `store` writes the value's bits there and
+    keeps the other bits.  -> {raw: decided?}"""
+    from mirq.bits import BitEval, BV, Struct
+    from mirq.paths import Paths, Unsupported, variant_of
+    from mirq.origin import subst
+    MASKC = "embedded_graphics_core::pixelcolor::raw::RawData::MASK"
+    P_ = Paths(prog, inline=lambda g: g.name not in ("new", "new_unmasked", "from", "into_inner", "into"), depth=6)
+    BYTE, OLD = 900, 901
+    decided = {}
+    for impl in sorted(impls, key=short_raw):
+        raw = short_raw(impl)
+        bits = RAW_BITS.get(raw)
+        if bits is None or bits >= 8:
+            continue
+        ppb = 8 // bits
+        adt = impl["self_ty"]["adt"]
+        fns = {nm: prog.fns[impl["fns"][nm]] for nm in ("load", "store")}
+        all_ok = True
+        for nm, f in fns.items():
+            try:
+                summs = P_.of(f)
+            except Unsupported as e:
+                rep.fail("R11.8", "%s:%s:layout" % (raw, nm), "cannot summarise %s with its helpers inlined: %s" % (nm, e), status="undecided", at=f.span, fn=f.path)
+                all_ok = False
+                continue
+            for alt in (False, True):
+                key = "%s:%s:layout:%s" % (raw, nm, "alt" if alt else "std")
+                sel = []
+                for sm in summs:
+                    vo = variant_of(sm.ret)
+                    if not vo or vo[1] not in ("Some", "Ok"):
+                        continue
+                    bad_order = False
+                    for fc in sm.facts:
+                        if fc[0] in ("true", "false") and fc[1][0] == "const" and isinstance(fc[1][1], str) and fc[1][1].startswith(ALT):
+                            if (fc[0] == "true") != alt:
+                                bad_order = True
+                    if not bad_order:
+                        sel.append(sm)
+                if len(sel) != 1:
+                    rep.fail("R11.8", key, "expected one accepting path of %s for this data order, found %d" % (nm, len(sel)), status="undecided", at=f.span, fn=f.path)
+                    all_ok = False
+                    continue
+                sm = sel[0]
+                problems, und = [], []
+                for idx in range(2 * ppb):
+                    envc = {"index": idx, BPP: bits, MASKC: (1 << bits) - 1, ALT: int(alt)}
+
+                    def cf(n):
+                        if n[0] == "param" and len(n) > 2 and n[2] == "index":
+                            return ("const", idx)
+                        if n[0] == "const" and isinstance(n[1], str):
+                            try:
+                                return ("const", _eval_int(n, envc))
+                            except (ValueError, KeyError):
+                                return None
+                        if n[0] == "bin":
+                            try:
+                                return ("const", _eval_int(n, envc))
+                            except (ValueError, KeyError, ZeroDivisionError):
+                                return None
+                        if n[0] == "cast" and n[1][0] == "const" and isinstance(n[1][1], int) and not isinstance(n[1][1], bool) and str(n[2]).startswith(("u", "i")):
+                            return n[1] if str(n[2]) in ("usize", "u32", "u64", "i32") else None
+                        if n[0] == "payload" and n[1][0] == "call" and n[1][1].split("::")[-1] in ("get", "get_mut"):
+                            return ("param", BYTE, "byte")
+                        if n[0] == "un" and n[1] == "Not" and n[2][0] != "cast":
+                            return ("un", "Not", ("cast", n[2], "u8"))
+                        return None
+                    exp_shift = (idx % ppb) * bits if alt else (ppb - 1 - idx % ppb) * bits
+                    # the byte that is accessed
+                    acc = []
+                    for tr in [sm.ret] + [x for e in sm.effects for x in e[1:] if isinstance(x, tuple)] + [fc[1] for fc in sm.facts if len(fc) > 1 and isinstance(fc[1], tuple)]:
+                        for n in walk(tr):
+                            if isinstance(n, tuple) and n and n[0] == "call" and n[1].split("::")[-1] in ("get", "get_mut") and len(n[3]) == 2 and ptr_root(n)[:1] == ("param",):
+                                try:
+                                    acc.append(_eval_int(subst(n[3][1], cf), envc))
+                                except (ValueError, KeyError):
+                                    und.append("byte index %s" % show(n[3][1], maxd=4))
+                    if not acc:
+                        und.append("no byte access found")
+                    elif set(acc) != {idx // ppb}:
+                        problems.append("pixel %d accesses byte %s, its byte is %d" % (idx, sorted(set(acc)), idx // ppb))
+                    ev = BitEval(prog)
+                    if nm == "load":
+                        lv = subst(sm.ret[2][0], cf)
+                        got = ev.eval(lv, {BYTE: BV.inp("byte", 8)}, f)
+                        inner = got.fields.get(0) if isinstance(got, Struct) else got
+                        want = BV([("in", "byte", exp_shift + j) for j in range(bits)], 8)
+                        if not (isinstance(inner, BV) and inner == want):
+                            (problems if isinstance(inner, BV) and "T" not in [str(x) for x in inner.bits] else und).append(
+                                "pixel %d: load must return bits [%d, %d) of its byte, got %r" % (idx, exp_shift, exp_shift + bits, inner))
+                    else:
+                        writes = [e for e in sm.effects if e[0] == "write"]
+                        if len(writes) != 1 or len(sm.effects) != 1:
+                            und.append("the accepting path of store must perform exactly one byte write")
+                            continue
+                        val = Struct(adt, {0: BV([("in", "v", j) for j in range(bits)], 8)})
+                        tgt = subst(writes[0][1], cf)
+                        if tgt != ("param", BYTE, "byte"):
+                            und.append("store writes through %s" % show(writes[0][1], maxd=4))
+                        sv = subst(writes[0][2], cf)
+                        got = ev.eval(sv, {1: val, BYTE: BV.inp("old", 8)}, f)
+                        want = BV([("in", "v", j - exp_shift) if exp_shift <= j < exp_shift + bits else ("in", "old", j) for j in range(8)], 8)
+                        if not (isinstance(got, BV) and got == want):
+                            (problems if isinstance(got, BV) and "T" not in [str(x) for x in got.bits] else und).append(
+                                "pixel %d: store must write the value to bits [%d, %d) of its byte and keep the rest, got %r" % (idx, exp_shift, exp_shift + bits, got))
+                if problems:
+                    rep.fail("R11.8", key, "; ".join(problems[:2]), at=f.span, fn=f.path)
+                    all_ok = False
+                elif und:
+                    rep.fail("R11.8", key, "; ".join(sorted(set(und))[:2]), status="undecided", at=f.span, fn=f.path)
+                    all_ok = False
+                else:
+                    rep.ok("R11.8", key, at=f.span, fn=f.path, detail={"pixels": 2 * ppb})
+        decided[raw] = all_ok
+    return decided
